@@ -1846,11 +1846,12 @@ class Process:
                     if line:
                         try:
                             name, value = line.split(b': ')
+                            value = int(value)
                         except ValueError:
                             # https://github.com/giampaolo/psutil/issues/1004
                             continue
                         else:
-                            fields[name] = int(value)
+                            fields[name] = value
             if not fields:
                 msg = f"{fname} file was empty"
                 raise RuntimeError(msg)
